@@ -196,6 +196,7 @@ def c03_monitor(ctx, tr, ix):
     mfee0 = collections.Counter()
     sys_fee = collections.Counter()
     split_gain = collections.Counter()
+    split_tol = collections.Counter()
     reinvested = collections.Counter()
     units_nan_reported = False
     prev_settle_acc = None
@@ -212,6 +213,10 @@ def c03_monitor(ctx, tr, ix):
                             if h1 is not None:
                                 # shares bought by a dividend reinvestment the same morning are split too
                                 split_gain["STOCK"] += (h1["long"]["qty"] - (h["long"]["qty"] + reinvested[h["id"]]) * ratio) * h1["long"]["last"]
+                                if reinvested[h["id"]]:
+                                    # shares reinvested and split the same morning: the holding and its "held since yesterday" part are rounded to whole shares
+                                    # separately (each within half a share), so up to one share moves between the day's trading P&L and no P&L at all
+                                    split_tol["STOCK"] += 1.0 * h1["long"]["last"]
             reinvested.clear()
         if kind == "POST_SETTLEMENT" and e.get("accounts"):
             prev_settle_acc = e["accounts"]
@@ -269,6 +274,8 @@ def c03_monitor(ctx, tr, ix):
                 want = dtv - flows[t] + mf - split_gain[t]
                 sg_today = split_gain[t]
                 split_gain[t] = 0
+                tol_today = split_tol[t]
+                split_tol[t] = 0
                 # daily_pnl is not in the snapshot's obs: recompute from the account's parts exposed there
                 dp = e.get("daily_pnl", {}).get(t)
                 if dp is not None and dp == dp:
@@ -285,6 +292,8 @@ def c03_monitor(ctx, tr, ix):
                                         % (when.date(), t, dp, sys_fee[t], want, sg_today), rp)
                         elif sg_today and abs(dp - (want + sg_today)) <= 1e-4 + 1e-9 * abs(want):
                             ctx.stats["c03_split_rounding_inside_daily_pnl"] += 1
+                        elif tol_today and abs(dp - want) <= tol_today + abs(sg_today) + 1e-4:
+                            ctx.stats["c03_reinvest_split_rounding_within_one_share"] += 1
                         elif sys_fee[t] > 0 and abs(dp - (want - sys_fee[t])) <= 1e-4 + 1e-9 * abs(want):
                             ctx.witness("C03.5", {"kind": "daily_pnl_identity", "reinvestment_fee": True},
                                         "%s %s: reported daily P&L %r counts the reinvestment fee %r that was never taken out of cash (change in value net of flows %r)" % (when.date(), t, dp, sys_fee[t], want), rp)
@@ -506,13 +515,15 @@ def c10_monitor(ctx, tr, ix):
                     continue
                 leg = (o["book"], o["direction"].lower())
                 if o["effect"] in ("CLOSE", "CLOSE_TODAY"):
-                    closing[leg] += o["qty"]
+                    # what the order has taken or still claims: its fills, plus its unfilled part while it rests (an order cancelled or rejected
+                    # unfilled before the next one was validated claims nothing any more)
+                    closing[leg] += o["filled"] + ((o["qty"] - o["filled"]) if o["status"] in ("ACTIVE", "PENDING_NEW") else 0)
             for leg, q in closing.items():
                 if q > held.get(leg, 0) + opened[leg]:
                     sigq = {"kind": "accepted_closes_exceed_leg", "account": "FUTURE"}
                     if c["api"] == "plan_future_generic_close":
                         sigq["generic_close_and_close_today_resting"] = True      # the scenario of finding F12
-                    ctx.witness("C10.3", sigq, "%s%r at %s: closing orders for %s lots of %s %s passed validation, the leg held %s before the call and %s lots were opened while it ran"
+                    ctx.witness("C10.3", sigq, "%s%r at %s: the call's closing orders have filled or still claim %s lots of %s %s, the leg held %s before the call and %s lots were opened while it ran"
                                 % (c["api"], c["args"], c["when"], q, leg[0], leg[1], held.get(leg, 0), opened[leg]), rp)
     # rejected closes change nothing: position-validator vetoes vs snapshots around the call
     for c in tr.calls:
@@ -541,7 +552,8 @@ def c12_monitor(ctx, tr, ix):
         cur = {h["id"]: h["long"]["div"] for h in a_["holdings"] if h["long"]["div"]}
         for oid_, (pay8, amt, seen_at) in list(recv.items()):
             if oid_ not in cur:
-                if now8 < pay8 and amt:
+                liquidated_ = (not a_["holdings"]) and a_["total_cash"] == 0        # forced liquidation wipes the account, receivables included (by design)
+                if now8 < pay8 and amt and not liquidated_:
                     ctx.witness("C12.2", {"kind": "receivable_vanished"}, "%s: the dividend receivable %r of %s (payable %s, booked by %s) is gone at %s (%s) before its payable date"
                                 % (when, amt, oid_, pay8, seen_at, when, kind), rp)
                 del recv[oid_]
